@@ -304,11 +304,15 @@ fn check_injection(t: &mut Tape, cx: &mut Cx) -> Res {
             };
             p.extend_from_slice(t.utf8(n).as_bytes());
             let at_max = n >= room - 5;
-            p.extend_from_slice(match t.below(5) {
+            p.extend_from_slice(match t.below(9) {
                 0 => &[0xff][..],
                 1 => &[0xc0, 0xaf][..],     // overlong
                 2 => &[0xed, 0xa0, 0x80][..], // surrogate
                 3 => &[0xf4, 0x90, 0x80, 0x80][..], // beyond U+10FFFF
+                4 => &[0xf0, 0x9f, 0x98][..], // four-octet character missing its last octet
+                5 => &[0xf0, 0x9f][..],     // ... missing two
+                6 => &[0x80][..],           // lone continuation octet
+                7 => &[0xe0, 0x80, 0x80][..], // overlong three-octet form
                 _ => &[0xe2, 0x82][..],     // truncated sequence (at the end, or followed by ASCII)
             });
             let n2 = if at_max { 0 } else { t.below(4) };
@@ -362,13 +366,26 @@ fn check_injection(t: &mut Tape, cx: &mut Cx) -> Res {
         let attr = ASSIGNED[1 + t.below(38)];
         encode_avp(&SAvp { attr, hidden: false, body: gen_body_max(t, attr, 40) }, &mut region);
     }
-    let msg = control_around(t, &region);
+    let mut msg = control_around(t, &region);
     // harness sanity: the reference sees exactly one fault
     match decode_message(&msg, STRICT) {
         Err(e) if e.len() == 1 => {}
         other => return fail(format!("harness: single-fault construction is not single-fault for the reference: {:?}", other.map(|x| x.1)), json!({"input": hex(&msg), "harness_bug": true})),
     }
     expect_msg_ref(&msg, STRICT, &expected, cx)?;
+    // the same single fault with checks switched off and the header bits they own set to anything: still exactly that error
+    if t.chance(30) {
+        let o = Opts { reserved: false, version: false, unused: false };
+        let nib = t.below(16) as u8;
+        msg[1] = (msg[1] & 0x0f) | (nib << 4);
+        msg[0] |= t.byte() & 0x2c; // reserved bits of the first flag octet
+        msg[1] |= t.byte() & 0x0f; // reserved bits of the second
+        if t.chance(30) {
+            msg[0] |= [0x80u8, 0x40, 0xc0][t.below(3)]; // P / O on a control message
+        }
+        cx.class("fault with validation off and arbitrary owned header bits");
+        expect_msg_ref(&msg, o, &expected, cx)?;
+    }
     // the bare AVP-list decoder: the same error as the element at the faulty position, Ok elsewhere
     cx.eval();
     cx.stage(STAGE_ARMED);
